@@ -46,6 +46,7 @@ InL(x, y) == [k |-> "inl", x |-> x, y |-> y]
 Pipe(x, y) == [k |-> "pipe", x |-> x, y |-> y]
 PipeKw(x, y) == [k |-> "pipekw", x |-> x, y |-> y]     \* x.rx.pipe(f, v=y): the reactive argument passed by keyword
 Map(x) == [k |-> "map", x |-> x]
+IsNone(x, neg) == [k |-> "isnone", x |-> x, neg |-> neg]      \* x.rx.is_(None) / x.rx.is_not(None)
 Count(x, y) == [k |-> "count", x |-> x, y |-> y]
 BindF(x, y) == [k |-> "bindf", x |-> x, y |-> y]
 
@@ -97,6 +98,7 @@ Eval(e, env) ==
                       ELSE IF y.t # "l" THEN Err("TypeError") ELSE BV(\E i \in 1..Len(y.items) : y.items[i] = Num(x))
     [] e.k \in {"pipe", "pipekw", "bindf"} -> LET x == Eval(e.x, env) y == Eval(e.y, env) IN
                        IF x.t = "e" THEN x ELSE IF y.t = "e" THEN y ELSE IV(10 * Num(x) + Num(y))
+    [] e.k = "isnone" -> LET x == Eval(e.x, env) IN IF x.t = "e" THEN x ELSE BV(e.neg)
     [] e.k = "map" -> LET x == Eval(e.x, env) IN
                       IF x.t = "e" THEN x ELSE LV([i \in 1..Len(x.items) |-> x.items[i] + 1])
     [] e.k = "count" -> LET x == Eval(e.x, env) y == Eval(e.y, env) IN
@@ -107,12 +109,12 @@ Eval(e, env) ==
 RECURSIVE Inputs(_)
 Inputs(e) ==
   CASE e.k = "in" -> {e.n} [] e.k = "c" -> {}
-    [] e.k \in {"un", "map"} -> Inputs(e.x)
+    [] e.k \in {"un", "map", "isnone"} -> Inputs(e.x)
     [] e.k = "where" -> Inputs(e.c) \cup Inputs(e.x) \cup Inputs(e.y)
     [] OTHER -> Inputs(e.x) \cup Inputs(e.y)
 \* reactive sub-expressions the harness keeps handles to (the expression itself and its operands)
 Subs(e) == {e} \cup (IF e.k \in {"bin", "idx", "and", "or", "inl", "pipe", "pipekw", "count", "bindf"} THEN {x \in {e.x, e.y} : x.k \notin {"in", "c"}}
-                     ELSE IF e.k \in {"un", "map"} THEN {x \in {e.x} : x.k \notin {"in", "c"}}
+                     ELSE IF e.k \in {"un", "map", "isnone"} THEN {x \in {e.x} : x.k \notin {"in", "c"}}
                      ELSE IF e.k = "where" THEN {x \in {e.c, e.x, e.y} : x.k \notin {"in", "c"}} ELSE {})
 \* does the expression use a where result inside a larger expression (a deviation found with this
 \* module -- such expressions did not follow the selected branch -- is repaired: known_findings.json)
@@ -120,7 +122,7 @@ RECURSIVE HasInnerWhere(_, _)
 HasInnerWhere(e, top) ==
   CASE e.k \in {"in", "c"} -> FALSE
     [] e.k = "where" -> ~top \/ HasInnerWhere(e.c, FALSE) \/ HasInnerWhere(e.x, FALSE) \/ HasInnerWhere(e.y, FALSE)
-    [] e.k \in {"un", "map"} -> HasInnerWhere(e.x, FALSE)
+    [] e.k \in {"un", "map", "isnone"} -> HasInnerWhere(e.x, FALSE)
     [] OTHER -> HasInnerWhere(e.x, FALSE) \/ HasInnerWhere(e.y, FALSE)
 
 VARIABLES expr, env, dirty, cached, watched, nops, hist
